@@ -76,14 +76,18 @@ Definition is_neg_const (t : term) : bool :=
   end.
 
 (* _leads_with_minus *)
+Definition conn_of (t : term) : option conn := match t with TComplex c _ _ _ => Some c | _ => None end.
+
 Fixpoint leads_minus (t : term) : bool :=
   match t with
   | TNeg _ _ => true
   | TArith op l _ _ => if left_needs_parens op (op_of l) then false else leads_minus l
+  (* a criterion used as an operand begins with the text of its first operand *)
+  | TComplex c l _ _ => if needs_brackets c (conn_of l) then false else leads_minus l
+  | TBasic _ l _ _ | TNested _ _ l _ _ _ => leads_minus l
+  | TContains t' _ _ _ | TBetween t' _ _ _ | TIsNull t' _ => leads_minus t'
   | _ => is_neg_const t
   end.
-
-Definition conn_of (t : term) : option conn := match t with TComplex c _ _ _ => Some c | _ => None end.
 
 Fixpoint terms_len (l : terms) : nat := match l with TNil => 0%nat | TCons _ r => S (terms_len r) end.
 Fixpoint aliases_of (l : terms) : list (option str) := match l with TNil => [] | TCons t r => term_alias t :: aliases_of r end.
@@ -536,7 +540,9 @@ Fixpoint render (c : ctx) (p : pz) (t : term) {struct t} : res (str * pz) :=
       end
   | TQuery q => render_query c p q
   | TSetOp base ops obs lim off alias =>
-      let c1 := match dialect c with MSSQL | ORACLE => set_groupby_alias false c | _ => c end in
+      (* the flags of the embedding position decide only about the parentheses and the alias around the whole set operation *)
+      let cn := set_with_namespace false (set_subquery false (set_with_alias false (set_subcriterion false c))) in
+      let c1 := match dialect cn with MSSQL | ORACLE => set_groupby_alias false cn | _ => cn end in
       let set_ctx := set_subquery (query_wrap_setops base && negb (dial_eqb (dialect c1) MYSQL)) c1 in
       do (sb, p1) <- render_query (if query_has_tail base then set_subquery true set_ctx else set_ctx) p base;
       do (sops_, p2) <- render_sops set_ctx (query_selects_len base) p1 ops;
@@ -567,8 +573,8 @@ Fixpoint render (c : ctx) (p : pz) (t : term) {struct t} : res (str * pz) :=
            end
          end);
       let s := s ++ spag in
-      let s := paren_if (subquery c1) s in
-      Ok (alias_if (with_alias c1) c1 s alias, p5)
+      let s := paren_if (subquery c) s in
+      Ok (alias_if (with_alias c) c1 s alias, p5)
   end
 
 with render_o (c : ctx) (p : pz) (o : oterm) {struct o} : res (option str * pz) :=
